@@ -4,6 +4,7 @@
    times/durations in the same unit (the harness uses nanoseconds, tps = 10^9).
    opcode: 0 fail 1 succ 2 query 3 ban(arg=dur) 4 unban 5 cleanup 6 bladd(arg=dur) 7 blrm 8 wladd 9 wlrm
            10 allowed 11 blcleanup 12 allowip(arg=n) 13 rlcleanup 14 handshake(arg: 0 bad id, 1 anonymous ok, 2 anonymous failing)
+           15 restart (all components rebuilt over the same storage);  ip >= 1000 is a CIDR key (see Model/Lockout.v cidr_of)
    A step is compared only where its mask is 1 (the driver masks the steps whose model answer is not the same
    under all perturbed time lines). *)
 From TX Require Import Base.Val Model.Lockout.
@@ -22,7 +23,8 @@ Definition dec_call (code ip arg : N) : call :=
   | 0%N => CFail ip | 1%N => CSucc ip | 2%N => CQuery ip | 3%N => CBan ip (Z.of_N arg) | 4%N => CUnban ip
   | 5%N => CCleanup | 6%N => CBlAdd ip (Z.of_N arg) | 7%N => CBlRm ip | 8%N => CWlAdd ip | 9%N => CWlRm ip
   | 10%N => CAllowed ip | 11%N => CBlCleanup | 12%N => CAllowIP ip (Z.of_N arg) | 13%N => CRlCleanup
-  | _ => CHs ip (dec_kind arg)
+  | 14%N => CHs ip (dec_kind arg)
+  | _ => CRestart
   end.
 Definition dec_op (v : tval) : Z * call :=
   (vz (vnth 0 v), dec_call (vn (vnth 1 v)) (vn (vnth 2 v)) (vn (vnth 3 v))).
